@@ -282,3 +282,62 @@ def multidigit_roundtrip(case):
         present = j < k
         check("digit-%d-back-or-zero-padding" % j, ite(present, raw_item(items, j) == raw_item(data, idx + j), raw_item(items, j) == 0)
               if not isinstance(present, bool) else (raw_item(items, j) == raw_item(data, idx + j) if present else raw_item(items, j) == 0))
+
+
+# ------------------------------------------------------------------------------------------------ FixStr, Dict
+@harness("C15")
+def fixstr_roundtrip(case):
+    """FixStr(s): serialize produces s and consumes no item; deserialize of pre + s + rest at len(pre) consumes exactly s"""
+    if CTX.mode != "sym":
+        return
+    fix, pre, rest = sstr("fix"), sstr("pre"), sstr("rest")
+    env = _env()
+    obj = OBJ(PS, "FixStr", _s=fix)
+    o = call(REAL(PS, "FixStr.serialize"), obj, env, mklist([]), 0)
+    check("serialize-no-exception", not o.raised)
+    if o.raised:
+        return
+    check("serialize-consumes-no-item-and-writes-the-text", isinstance(o.value, tuple) and o.value[0] == 0 and o.value[1] == fix)
+    d = call(REAL(PS, "FixStr.deserialize"), obj, env, pre + fix + rest, length(pre))
+    check("deserialize-no-exception", not d.raised)
+    if d.raised:
+        return
+    r = d.value
+    check("deserialize-accepts-its-own-text", r is not None)
+    if r is not None:
+        check("consumes-exactly-the-produced-characters", r[0] == length(fix))
+        check("yields-no-item", is_list(r[1]) and length(r[1]) == 0)
+
+
+@harness("C15", cases=[dict(which=w) for w in (0, 1)])
+def dict_roundtrip(case):
+    """Dict([b0, b1], [a0, a1]) with texts of which none is a prefix of the other (distinguishable alternatives):
+    the value b_k is written as a_k and read back as b_k, consuming exactly a_k"""
+    if CTX.mode != "sym":
+        return
+    a0, a1, pre, rest = sstr("a0"), sstr("a1"), sstr("pre"), sstr("rest")
+    requires(And(length(a0) >= 1, length(a1) >= 1))
+    requires(Not(mk_bool(_z3.PrefixOf(a0.t, a1.t))))
+    requires(Not(mk_bool(_z3.PrefixOf(a1.t, a0.t))))
+    b0, b1 = sint("b0"), sint("b1")
+    requires(b0 != b1)
+    env = _env()
+    obj = OBJ(PS, "Dict", _before=mklist([b0, b1]), _after=mklist([a0, a1]))
+    val, text = (b0, a0) if case.which == 0 else (b1, a1)
+    o = call(REAL(PS, "Dict.serialize"), obj, env, mklist([sint("other"), val]), 1)
+    check("serialize-no-exception", not o.raised)
+    if o.raised:
+        return
+    check("the-value-is-written-as-its-own-text", isinstance(o.value, tuple) and o.value[0] == 1 and o.value[1] == text)
+    d = call(REAL(PS, "Dict.deserialize"), obj, env, pre + text + rest, length(pre))
+    check("deserialize-no-exception", not d.raised)
+    if d.raised:
+        return
+    r = d.value
+    check("deserialize-accepts-its-own-text", r is not None)
+    if r is not None:
+        check("consumes-exactly-the-produced-characters", r[0] == length(text))
+        check("yields-the-original-value", is_list(r[1]) and length(r[1]) == 1 and item(r[1], 0) == val)
+    o2 = call(REAL(PS, "Dict.serialize"), obj, env, mklist([sint("unknown_value")]), 0)
+    if not o2.raised and o2.value is not None:
+        check("only-dictionary-keys-are-accepted", Or(item(mklist([sint("unknown_value")]), 0) == b0, item(mklist([sint("unknown_value")]), 0) == b1))
